@@ -130,7 +130,7 @@ def one_case(args):
         shutil.rmtree(cdir, ignore_errors=True)
         return rec
     if MODEL_OF.get(name):
-        try: rec["snapshot"] = snapshot(root, MODEL_OF[name][1], CODE_TEXTS)
+        try: rec["snapshot"] = cachefs_model.snapshot(root, MODEL_OF[name][1], CODE_TEXTS)
         except Exception as e: rec["snapshot_error"] = repr(e)[:200]
     # recovery: fresh interpreters, no interposer, each reader kind on its own copy of the crashed directory
     readers = [("plain", {}, [["loadall"]] + [["call", a] for a in probes]),
